@@ -28,10 +28,15 @@ Theorem shorter_release_not_f9 v w :
 Proof. exact (Version.f9_shorter_release v w). Qed.
 Print Assumptions shorter_release_not_f9.
 
-(* what a printed version converts to: the field values, then -3/-2/-1 for alpha/beta/rc, then the pre-release number *)
-Theorem convert_print v : wf v -> from_obj (print v) = Ok (ints v).
+(* what a printed version converts to: the field values, then the Enum value of the label, then the pre-release number;
+   all the ordering needs from the extracted Enum values is: negative and increasing from alpha to rc *)
+Theorem convert_print v : wf v -> from_obj (print v) = Ok (ints label_val v).
 Proof. exact (Version.convert_print v). Qed.
 Print Assumptions convert_print.
+
+Theorem label_values_ordered : label_val Alpha < label_val Beta /\ label_val Beta < label_val Rc /\ label_val Rc < 0.
+Proof. exact Version.label_vals_ordered. Qed.
+Print Assumptions label_values_ordered.
 
 (* N(.N)*-LABEL[.N] with a label other than alpha / beta / rc is rejected with ValueError *)
 Theorem bad_label_rejected ns lab (on : option pystr) :
@@ -106,18 +111,18 @@ Proof. exact (Version.scfw_default_version_accepted M m p extra). Qed.
 Print Assumptions scfw_default_version_accepted.
 
 (* ---- non-vacuity ---- *)
-(* 1.10.0-rc.2 vs 1.9.3 : well-formed, outside F9, precedence Gt, converted to [1;10;0;-1;2] and [1;9;3] *)
+(* 1.10.0-rc.2 vs 1.9.3 : well-formed, outside F9, precedence Gt, converted to [1;10;0;<rc>;2] and [1;9;3] *)
 Definition ex_v := {| nums := [[49]; [49; 48]; [48]]; pre := Some (Rc, Some [50]) |}.
 Definition ex_w := {| nums := [[49]; [57]; [51]]; pre := None |}.
 Example version_order_nonvacuous :
   wf ex_v /\ wf ex_w /\ f9_family ex_v ex_w = false /\ semver_cmp ex_v ex_w = Gt
-  /\ from_obj (print ex_v) = Ok [1; 10; 0; -1; 2] /\ from_obj (print ex_w) = Ok [1; 9; 3].
+  /\ from_obj (print ex_v) = Ok [1; 10; 0; label_val Rc; 2] /\ from_obj (print ex_w) = Ok [1; 9; 3].
 Proof. repeat split; try discriminate; repeat constructor. Qed.
 
 (* different arity with the shorter one a release: 2.1 vs 2.1.0-beta *)
 Example shorter_release_nonvacuous :
   let v := {| nums := [[50]; [49]]; pre := None |} in let w := {| nums := [[50]; [49]; [48]]; pre := Some (Beta, None) |} in
-  wf v /\ wf w /\ f9_family v w = false /\ semver_cmp v w = Gt /\ list_cmp (ints v) (ints w) = Gt.
+  wf v /\ wf w /\ f9_family v w = false /\ semver_cmp v w = Gt /\ list_cmp (ints label_val v) (ints label_val w) = Gt.
 Proof. repeat split; try discriminate; repeat constructor. Qed.
 
 Example bad_label_nonvacuous : from_obj [49; 46; 48; 45; 100; 101; 118] = Raise ValueError.   (* "1.0-dev" *)
@@ -129,10 +134,10 @@ Example seqnum_nonvacuous :
   /\ default_seq_num [49] [50] [50; 53; 53] (Some [50; 53; 53]) = Ok 16973823 /\ default_seq_num [49] [51] [48] None = Ok 16973824.
 Proof. repeat split; vm_compute; reflexivity. Qed.
 
-(* EXTRAVERSION "rc.12" -> "1.2.3-rc.12" -> [1;2;3;-1;12];  "foo" -> "1.2.3-alpha";  "" -> "1.2.3" *)
+(* EXTRAVERSION "rc.12" -> "1.2.3-rc.12" -> [1;2;3;<rc>;12];  "foo" -> "1.2.3-alpha";  "" -> "1.2.3" *)
 Example default_version_nonvacuous :
   default_version [49] [50] [51] (Some [114; 99; 46; 49; 50]) = Ok [49; 46; 50; 46; 51; 45; 114; 99; 46; 49; 50]
-  /\ (let* s := default_version [49] [50] [51] (Some [114; 99; 46; 49; 50]) in from_obj s) = Ok [1; 2; 3; -1; 12]
-  /\ (let* s := default_version [49] [50] [51] (Some [102; 111; 111]) in from_obj s) = Ok [1; 2; 3; -3]
+  /\ (let* s := default_version [49] [50] [51] (Some [114; 99; 46; 49; 50]) in from_obj s) = Ok [1; 2; 3; label_val Rc; 12]
+  /\ (let* s := default_version [49] [50] [51] (Some [102; 111; 111]) in from_obj s) = Ok [1; 2; 3; label_val Alpha]
   /\ (let* s := default_version [49] [50] [51] (Some []) in from_obj s) = Ok [1; 2; 3].
 Proof. repeat split; vm_compute; reflexivity. Qed.
